@@ -113,6 +113,22 @@ class FdTable(EngineBase):
             k.end_op()
             for ev in block["between"]:
                 k.apply_event(ev)
+            if block.get("reborn"):
+                # the process ended and its PID now belongs to a younger one;
+                # the application builds a new Process object for it
+                if cm is not None:
+                    try:
+                        cm.__exit__(None, None, None)
+                    except BaseException as e:  # noqa: BLE001
+                        if is_harness_exc(e):
+                            raise
+                    cm = None
+                k.apply_event({"ev": "reuse", "pid": T, "ppid": 1,
+                               "comm": "tgt2", "io": block["reborn"]["io"],
+                               "fds": {}})
+                k.begin_op(6)
+                p = psutil.Process(T)
+                k.end_op()
         initial = {int(fd): dict(d) for fd, d in (
             k.procs[T].fds if T in k.procs else {}).items()}
         acc0 = len(k.acclog)
@@ -178,7 +194,7 @@ class FdTable(EngineBase):
                     V("C14.num_fds", tags, subject, "num_fds() -> %r, table "
                       "size at the listing %r" % (val, want))
             elif subject == "io_counters":
-                io = plan["io"]
+                io = (block or {}).get("reborn", {}).get("io") or plan["io"]
                 want = (io["syscr"], io["syscw"], io["read_bytes"],
                         io["write_bytes"], io["rchar"], io["wchar"])
                 names = ("read_count", "write_count", "read_bytes",
@@ -297,6 +313,16 @@ class FdTable(EngineBase):
                 u["evals"] += 1
                 self._absorb(u, bp, r, ("block", subject, bp["block"]["first"],
                                         str(len(between))))
+            if subject == "io_counters":
+                for j in range(2):
+                    lower = {kk: rng.randrange(0, max(1, vv // 2 + 1))
+                             for kk, vv in world["io"].items()}
+                    bp = dict(base, block={
+                        "first": "io_counters", "oneshot": False,
+                        "between": [], "reborn": {"io": lower}})
+                    r = W.execute_forked(bp)
+                    u["evals"] += 1
+                    self._absorb(u, bp, r, ("reborn", subject))
             if subject != "open_files" or n == 0:
                 continue
             fdnums = [fd for fd, _ in world["fds"]]
